@@ -85,7 +85,7 @@ type ContractFile struct {
 }
 
 var clauseKeywords = map[string]bool{
-	"for": true, "end": true, "spec": true, "func": true, "lemma": true, "props": true,
+	"for": true, "end": true, "spec": true, "func": true, "lemma": true, "props": true, "propsdefault": true,
 	"requires": true, "ensures": true, "panics_when": true, "errors_when": true, "modifies": true,
 	"loop": true, "decreases": true, "model": true, "trusted": true, "pure": true, "inline": true,
 	"nosafe": true, "atomic_panics": true, "site": true, "unroll": true, "refines": true, "may_panic": true,
@@ -232,11 +232,14 @@ func ParseContractFile(path, pkg string, cf *ContractFile) error {
 			}
 			c.Props = pendingProps
 			cf.Contracts = append(cf.Contracts, c)
+		case "propsdefault":
+			pendingProps = cleanProps(strings.Fields(rest))
+			c = nil
 		case "props":
 			if c == nil {
-				pendingProps = strings.Fields(rest)
+				pendingProps = cleanProps(strings.Fields(rest))
 			} else {
-				c.Props = strings.Fields(rest)
+				c.Props = cleanProps(strings.Fields(rest))
 			}
 		default:
 			if c == nil {
@@ -365,6 +368,15 @@ func ParseContractFile(path, pkg string, cf *ContractFile) error {
 		}
 	}
 	return nil
+}
+
+// cleanProps: "C01@" is "C01" (schema filler), "C01+" marks thorough-tier only.
+func cleanProps(ps []string) []string {
+	var out []string
+	for _, p := range ps {
+		out = append(out, strings.TrimSuffix(p, "@"))
+	}
+	return out
 }
 
 func firstWord(s string) string {
